@@ -129,7 +129,7 @@ def r2_r4(ctx, F, hub):
     # mismatch edge: staging removed, no rename / commit reachable
     reach_bad = set()
     for (s, t, lab) in unequal:
-        reach_bad |= cfg.reach(t)
+        reach_bad |= cfg.feasible_after_edge((s, t, lab))
     removes = [rb for rb, rt in fl.calls_to('std::fs::remove_file') if hub.path_class(b, rt['args'][0]) == 'staging' and rb in reach_bad]
     ctx.check(bool(unequal) and lb not in reach_bad and bool(removes), 'C10.R2', 'handle_put:mismatch-removes-staging',
               'on hash mismatch: staging removed, commit region unreachable',
